@@ -34,10 +34,10 @@ valid = gen.valid_case
 def jobs(tier):
     if tier == 'quick':
         plan = [('json', 10, 4, 220), ('nested', 0, 0, 30), ('multiset', 8, 0, 60), ('xml', 5, 0, 40), ('csv', 0, 0, 20),
-                ('plist', 8, 0, 20), ('skewed', 6, 0, 60), ('padded', 0, 0, 30), ('pyobj', 8, 0, 30), ('growing', 0, 0, 80), ('dupsib', 0, 0, 40), ('huge', 0, 0, 3), ('pickle', 8, 0, 20), ('mixedlists', 0, 0, 60), ('records', 0, 0, 30)]
+                ('plist', 8, 0, 20), ('skewed', 6, 0, 60), ('padded', 0, 0, 30), ('pyobj', 8, 0, 30), ('growing', 0, 0, 80), ('dupsib', 0, 0, 40), ('huge', 0, 0, 3), ('pickle', 8, 0, 20), ('mixedlists', 0, 0, 60), ('records', 0, 0, 30), ('plistjson', 8, 0, 30)]
     else:
         plan = [('json', 25, 7, 5000), ('nested', 0, 0, 600), ('multiset', 10, 0, 1500), ('xml', 8, 0, 1000),
-                ('csv', 0, 0, 400), ('plist', 12, 0, 400), ('skewed', 8, 0, 1200), ('padded', 0, 0, 600), ('pyobj', 12, 0, 600), ('growing', 0, 0, 1500), ('dupsib', 0, 0, 600), ('huge', 0, 0, 40), ('pickle', 12, 0, 400), ('mixedlists', 0, 0, 1000), ('records', 0, 0, 600)]
+                ('csv', 0, 0, 400), ('plist', 12, 0, 400), ('skewed', 8, 0, 1200), ('padded', 0, 0, 600), ('pyobj', 12, 0, 600), ('growing', 0, 0, 1500), ('dupsib', 0, 0, 600), ('huge', 0, 0, 40), ('pickle', 12, 0, 400), ('mixedlists', 0, 0, 1000), ('records', 0, 0, 600), ('plistjson', 12, 0, 400)]
     js = []
     for s in range(16):
         for fam, ml, mw, n in plan:
